@@ -13,7 +13,7 @@ FORMATS = ["pq_model", "qubo", "ising", "bqm"]
 META = {
     "rule": "states = (program, format): programs of families B (<= 2 operators, all labelings; 3 operators over <= 4 variables), I1 depth-1, S and T with "
             "<= 8 input bits, and 7 parameterised programs bound to every value of their parameters (42 binds), x formats {bqm, ising, qubo, pq_model}, exported by the real QlassF.to_bqm with a polynomial-semantics stand-in for pyqubo. "
-            "The polynomial handed to compile() (and the QUBO / Ising / BQM coefficient tables derived from it) is evaluated on EVERY assignment of all "
+            "The function's expressions are first compared with the Python value of the source on every determined row (pyref). The polynomial handed to compile() (and the QUBO / Ising / BQM coefficient tables derived from it) is evaluated on EVERY assignment of all "
             "its variables; E(x) = min over non-input variables. Oracle: argmin_x E(x) equals argmin_x #true return bits (bit-parallel evaluation of "
             "the function's expressions), with E = 0 there when the function has a zero; the model's variables are argument bits or declared "
             "auxiliaries (_ret*, aux*), and every argument bit the number of true return bits depends on occurs; decode_samples on a synthetic sample set covering "
@@ -66,6 +66,9 @@ def cases(shard):
         for src, binds in BOUND:
             for kw in binds:
                 yield {"src": src, "fam": "P", "bind": kw, "key": "bqm|bind=%s|%s" % (sorted(kw.items()), src)}
+                if len(kw) > 1:
+                    rk = dict(reversed(list(kw.items())))   # keywords in the reverse of the declaration order
+                    yield {"src": src, "fam": "P", "bind": rk, "key": "bqm|bind(reversed keywords)=%s|%s" % (list(rk.items()), src)}
         return
     i = 0
     for c in progs.prog_cases(shard):
@@ -164,6 +167,19 @@ def run_case(case):
     env, M = sim.boolev_list(qf.expressions, names, lenient=True)
     if any(b not in env for b in qf.returns.bitvec):
         return {"status": "skipped", "rows": 0, "nontrivial": False, "outcome": "open"}
+    # the function itself: the Python value of the source (with the bound parameter values), wherever it is determined
+    try:
+        from . import c01
+        from .c08 import ref_param
+        pr = pyref.Program(case["src"])
+        params = {k: ref_param(v) for k, v in case["bind"].items()} if case.get("bind") else None
+        b2, _info = c01.judge(qf, pr, params=params, tt=False)
+        if b2:
+            return {"status": "violation", "rows": 0, "nontrivial": True, "outcome": "not-the-source-function",
+                    "detail": {"bad": [dict(b, why="the function the model is built from is not the source's function: " + b["why"]) for b in b2[:2]]},
+                    "digest": H.h12([("pyref", b.get("bit"), b["why"], b.get("wrong_rows")) for b in b2])}
+    except pyref.Unsupported:
+        pass
     import re
     if re.search(r"\*\* 3|a \* a \+", case["src"]) or sum(len(str(e)) for s, e in qf.expressions) > 2500:
         # cubic and higher products of adders (a ** 3, a * a + a on 3-4 bits): the polynomial has thousands of terms
